@@ -35,6 +35,8 @@ func usesCmp(kind string) bool {
 	switch kind {
 	case "treeset", "binaryheap", "priorityqueue", "treemap", "redblacktree", "avltree", "btree", "treebidimap":
 		return true
+	case "arraylist", "singlylinkedlist", "doublylinkedlist":
+		return true // Sort(comparator)
 	}
 	return false
 }
@@ -75,7 +77,7 @@ func makeSubject(cfg Cfg, count bool) Subject {
 	}
 	switch cfg.Elem {
 	case "int":
-		d := intDom(n, cfg.Cmp)
+		d := intDom(n, cfg.Cmp, int(cfg.MapSeed>>16%uint64(len(specialInts))))
 		switch fam {
 		case "list":
 			return newListSubj(cfg, d)
@@ -129,15 +131,15 @@ func genCfg(r *Rng, kinds []string, tier string) Cfg {
 	}
 	if usesCmp(cfg.Kind) {
 		cs := cmpsFor(cfg.Elem)
-		cfg.Cmp = cs[r.Weighted(5, 2, 2, 2)%len(cs)]
+		cfg.Cmp = cs[[]int{0, 0, 0, 0, 0, 1, 1, 2, 2, 3, 3, 4, 4}[r.Intn(13)]%len(cs)]
 	} else {
 		cfg.Cmp = "nat"
 	}
 	if cfg.Kind == "treebidimap" {
-		cfg.VCmp = strCmps[r.Weighted(5, 2, 2, 2)]
+		cfg.VCmp = strCmps[r.Weighted(5, 2, 2, 2, 2)]
 	}
 	if cfg.Kind == "btree" {
-		cfg.Order = []int{3, 3, 3, 4, 4, 5, 5, 6, 7, 8, 12}[r.Intn(11)]
+		cfg.Order = []int{3, 3, 3, 4, 4, 5, 5, 6, 7, 8, 9, 10, 11, 12, 16, 17, 32}[r.Intn(17)]
 	}
 	if cfg.Kind == "circularbuffer" {
 		cfg.Cap = []int{1, 1, 2, 2, 3, 3, 4, 5, 6, 9}[r.Intn(10)]
